@@ -51,6 +51,11 @@ class Peer:
         self.doc_faults: dict[str, str] = {}
         self.default_latency = 0.002
         self.latency_fn = None
+        # chronology for the `after_other_delete` trigger: request counter, creation time of every resource path,
+        # successful DELETEs (as the client saw them) in order
+        self.req_no = 0
+        self.created_no: dict[str, int] = {}
+        self.ok_deletes: list[tuple[int, str]] = []
 
     # ------------------------------------------------------------------------------------------
     def _deviation(self, op_key: str, req: WireRequest) -> dict | None:
@@ -70,6 +75,15 @@ class Peer:
                 hit = n == trig["nth"]
             elif "from_nth" in trig:
                 hit = n >= trig["from_nth"]
+            elif "after_other_delete" in trig:
+                # the resource misbehaves only if, since it was created, a DELETE of some *other* resource succeeded
+                # (a cache-invalidation style defect; makes the first lifecycle finding of an operation appear in a
+                # tree that already holds an unrelated DELETE)
+                me = req.path.rstrip("/")
+                born = self.created_no.get(me)
+                hit = born is not None and any(
+                    no > born and other != me and not me.startswith(other + "/") for no, other in self.ok_deletes
+                )
             else:
                 hit = False
             if hit:
@@ -119,19 +133,30 @@ class Peer:
         key = op.key
         dev = self._deviation(key, req)
         self.counts[key] = self.counts.get(key, 0) + 1
+        self.req_no += 1
         if dev is not None:
             kind = dev["deviation"]
             r = self._deviate(kind, op, args, req, dev)
             if r is not None:
                 self.fired[kind] = self.fired.get(kind, 0) + 1
+                if "after_other_delete" in dev["trigger"]:
+                    self.fired["after_other_delete"] = self.fired.get("after_other_delete", 0) + 1
                 r.op = key
                 r.tag = kind
+                self._chronicle(req, r)
                 return r
         r = self._normal(op, args, req)
         r.op = key
         if r.latency == 0.001:
             r.latency = self.default_latency
+        self._chronicle(req, r)
         return r
+
+    def _chronicle(self, req: WireRequest, r: WireResponse) -> None:
+        if req.method == "DELETE" and 200 <= r.status < 300:
+            self.ok_deletes.append((self.req_no, req.path.rstrip("/")))
+        elif req.method == "POST" and r.status == 201 and (r.meta or {}).get("id") is not None:
+            self.created_no[req.path.rstrip("/") + "/" + str(r.meta["id"])] = self.req_no
 
     # ------------------------------------------------------------------------------------------
     def _deviate(self, kind: str, op, args, req: WireRequest, dev: dict) -> WireResponse | None:
